@@ -179,7 +179,10 @@ impl Storm {
             let cf = (p as f64 * conf_frac / 2.12) as u64;
             // starting supplies of the venue reserve (exchange rate = liq / col)
             let unit = 10u64.pow(decimals as u32);
-            let (liq, col) = match r.gen_range(0..7) {
+            let (liq, col) = match r.gen_range(0..9) {
+                // a reserve that took a loss: less liquidity than collateral supply (rate below 1)
+                7 => (999_000 * unit, 1_000_000 * unit),
+                8 => (500_000 * unit + 1, 1_000_000 * unit),
                 0 => (0, 0),
                 1 => (1_000_000 * unit, 1_000_000 * unit),
                 2 => (1_050_000 * unit, 1_000_000 * unit),
